@@ -123,3 +123,31 @@ fn run(c: &mut Case) {
         c.sample(|| json!({"class": CLASS_NAMES[class], "len": data.len(), "datagram_hex": hex(&data[..data.len().min(160)])}));
     }
 }
+
+thread_local! {
+    static FUZZ_WORLD: World = World::new(&mut crate::core::Rng::new(0x5EED_C23));
+}
+
+/// byte-driven entry (libFuzzer tier / `verif-driver bytes C23 <file>`): the three key contexts of a fixed
+/// world (fixed server keys and session keys, so coverage feedback is stable across executions)
+pub fn fuzz_bytes(c: &mut Case, data: &[u8]) {
+    if data.len() > 4096 {
+        return;
+    }
+    FUZZ_WORLD.with(|world| {
+        for ctx in ALL_CTX {
+            let label = match ctx {
+                Ctx::None => "deserialize/nocipher",
+                Ctx::Client => "deserialize/client",
+                Ctx::Server => "deserialize/server",
+            };
+            c.no_panic(label, || json!({"context": format!("{ctx:?}"), "class": "fuzz", "datagram_hex": hex(data)}), || world.decode(ctx, data, |r| outcome_kind(&r)));
+        }
+    });
+}
+
+/// seed corpus for the fuzz tier: one input of every generator class, built with the fixed fuzz world
+pub fn fuzz_corpus(n: usize) -> Vec<Vec<u8>> {
+    let mut rng = crate::core::Rng::new(0xC0FFEE);
+    FUZZ_WORLD.with(|world| (0..n).map(|i| pktgen::input_of_class(&mut rng, world, i % CLASS_NAMES.len())).collect())
+}
